@@ -188,7 +188,11 @@ func c18Exec(run *ev.Run, c ev.Case) {
 			switch kind {
 			case "dial-ok":
 				b := refbmc.New(cfg)
-				srv, err := udpbmc.Listen(b)
+				listen := udpbmc.Listen
+				if r.Intn(3) == 0 {
+					listen = udpbmc.ListenV6 // a BMC reached over IPv6 ("[::1]:port")
+				}
+				srv, err := listen(b)
 				if err != nil {
 					run.Inconclusive("udp listen: " + err.Error())
 					return
